@@ -80,6 +80,15 @@ LawMergeCount(a, b)  == Len(Merge(a, b).c) = Len(a.c) + Len(b.c) - 1
 LawMergeCum(a, b)    == LET m == Merge(a, b).c IN
                         /\ \A i \in 1..Len(a.c) : Cum(m)[i] = Cum(a.c)[i]
                         /\ \A i \in 1..Len(b.c) : Cum(m)[Len(a.c) + i - 1] = Length(a.c) + Cum(b.c)[i]
+(* the merged lane is a lane: its center-line point at arc length s is a's point for s <= |a| and b's beyond *)
+LawMergePoint(a, b, sn, sd) ==
+  LET m == Merge(a, b)  la == Length(a.c) IN
+  /\ sn <= sd * la => /\ PtEq(PointAt(m.c, sn, sd), PointAt(a.c, sn, sd))
+                      /\ PtEq(BoundaryAt(m.c, m.l, sn, sd), BoundaryAt(a.c, a.l, sn, sd))
+                      /\ PtEq(BoundaryAt(m.c, m.r, sn, sd), BoundaryAt(a.c, a.r, sn, sd))
+  /\ sn >= sd * la => /\ PtEq(PointAt(m.c, sn, sd), PointAt(b.c, sn - sd * la, sd))
+                      /\ PtEq(BoundaryAt(m.c, m.l, sn, sd), BoundaryAt(b.c, b.l, sn - sd * la, sd))
+                      /\ PtEq(BoundaryAt(m.c, m.r, sn, sd), BoundaryAt(b.c, b.r, sn - sd * la, sd))
 
 (* ------------------------------ (3) routes ----------------------------------------- *)
 (* G: function node -> set of successor nodes; len: node -> length; R: sequence of paths (sequences of nodes). *)
